@@ -1844,18 +1844,29 @@ func findChildren(parentEl *etree.Element, childNS string, childTag string) ([]*
 			}
 			parentCtx = &ctx
 		}
-		ctx := *parentCtx
+		// The child's own declarations are read off its attributes (the last one for its prefix
+		// decides, under the rules NSContext.SubContext applies) rather than by building a
+		// sub-context, which copies every binding in scope: that, too, was quadratic (declarations
+		// on the ancestors times children of the name looked for that declare something).
+		ns, err := parentCtx.LookupPrefix(childEl.Space)
 		for _, attr := range childEl.Attr {
-			if attr.Space == "xmlns" || (attr.Space == "" && attr.Key == "xmlns") {
-				var err error
-				if ctx, err = parentCtx.SubContext(childEl); err != nil {
-					return nil, err
+			switch {
+			case attr.Space == "xmlns":
+				if (attr.Key == "xml" && attr.Value != etreeutils.XMLNamespace) || attr.Key == "xmlns" {
+					return nil, etreeutils.ErrReservedNamespace
 				}
-				break
+				if attr.Key == childEl.Space {
+					ns, err = attr.Value, nil
+				}
+			case attr.Space == "" && attr.Key == "xmlns":
+				if attr.Value == etreeutils.XMLNSNamespace {
+					return nil, etreeutils.ErrInvalidDefaultNamespace
+				}
+				if childEl.Space == "" {
+					ns, err = attr.Value, nil
+				}
 			}
 		}
-
-		ns, err := ctx.LookupPrefix(childEl.Space)
 		if err != nil {
 			return nil, fmt.Errorf("[%s]:%s cannot find prefix %s: %v", childNS, childTag, childEl.Space, err)
 		}
